@@ -40,6 +40,16 @@
 //!            connection is opened over every 4-tuple that was used (hook H3
 //!            pins the client port); all must succeed.
 //!
+//! Quiescence re-certification (`recertify_listeners`): while packets are in flight the backlog
+//! model keeps bounds and taints a listener whenever a handshake ends in a way it does not follow
+//! (cancelled connect, duplicate SYN ...).  At every quiescence point no half-open child can exist
+//! any more, so each live listener's occupancy is re-derived exactly (attempts that never returned
+//! `Ok` occupy nothing) and the taint is lifted: a listener that has seen any number of aborted
+//! handshakes must afterwards admit a plain connect whenever `occupancy < backlog`.  `calm_after`
+//! ends a lossy plan at a quiescence point so that this is also judged after black-holed / lossy
+//! eras.  Subs `recovery` (random) and `recovery-family` (exhaustive) generate k >= backlog aborted
+//! handshakes on one listener, quiescence, then plain connects.
+//!
 //! Known findings (tolerated only while `is_known("F-C13-n")`, i.e. status "known" in
 //! `known_findings.json`; `replays/C13/known-F-C13-n-*.json` are
 //! the probe scenarios, run with `strict: true` through sub `probe-F-C13-n`, which gives their
@@ -145,6 +155,14 @@ pub struct Scenario {
     /// no tolerance for known findings (probe scenarios)
     #[serde(default)]
     pub strict: bool,
+    /// `Some(n)`: the fate plan (holds, drops, black-hole) applies only up to the n-th `Quiesce`
+    /// action (n >= 1); from that quiescence point on every packet is delivered in the round it is
+    /// emitted (the *calm era*).  Connects started in the calm era are judged by the liveness half
+    /// of the CONNECT clause even when the plan as a whole is not live-safe: whatever the faulty
+    /// era did to earlier handshakes, once the wire has been quiet a reachable listener with
+    /// backlog room must accept.
+    #[serde(default)]
+    pub calm_after: Option<u8>,
 }
 
 // ---------------------------------------------------------------- model types
@@ -231,6 +249,8 @@ struct Attempt {
     disturbed: bool,
     /// admitted so late that the SYN-ACK may miss the connector's last retransmit window
     late_admit: bool,
+    /// started in the calm era (after the plan was switched off at a quiescence point)
+    calm: bool,
 }
 
 struct Lst {
@@ -244,6 +264,9 @@ struct Lst {
     dst_ips: BTreeSet<IpAddr>,
     /// F-C13-4: a wildcard listener counts half-open children per destination address
     multi_addr: bool,
+    /// handshakes to this listener that reached it and were aborted (connect never returned Ok),
+    /// as of the last quiescence point at which its occupancy was re-certified exactly
+    aborted_seen: u32,
 }
 
 struct PlanPol<'a> {
@@ -327,6 +350,9 @@ struct Sim<'a> {
     syn_owner: BTreeMap<(SocketAddr, SocketAddr, u32), usize>,
     seen_pkts: usize,
     quiesce_no: u32,
+    /// `Quiesce` actions executed so far / the plan has been switched off (`Scenario::calm_after`)
+    quiesce_acts: u32,
+    calm: bool,
     nontrivial: bool,
     trace: bool,
     world: World,
@@ -495,6 +521,13 @@ impl<'a> Sim<'a> {
                 if !self.failed {
                     self.check_counts_range("mid");
                 }
+                self.quiesce_acts += 1;
+                if !self.failed && !self.calm && self.sc.calm_after.map(|n| n.max(1) as u32) == Some(self.quiesce_acts) {
+                    // the faulty era ends here: from now on the wire delivers everything at once
+                    self.calm = true;
+                    self.pol.active = false;
+                    self.out.label("era:calm-after-quiescence");
+                }
             }
         }
     }
@@ -517,7 +550,7 @@ impl<'a> Sim<'a> {
                     let d = format!("bound {sa} but local_addr() = {local}");
                     self.fail("listen:local-addr-differs-from-bound-address", d);
                 }
-                self.lsts.push(Lst { obj: Some(self.world.hold(h, l)), host: h, local: sa, occ_lo: 0, occ_hi: 0, tainted: false, dst_ips: BTreeSet::new(), multi_addr: false });
+                self.lsts.push(Lst { obj: Some(self.world.hold(h, l)), host: h, local: sa, occ_lo: 0, occ_hi: 0, tainted: false, dst_ips: BTreeSet::new(), multi_addr: false, aborted_seen: 0 });
                 self.used_ports.insert((h, v6, port));
                 self.out.label("listen:ok");
                 // pending attempts that now have a listener
@@ -639,6 +672,7 @@ impl<'a> Sim<'a> {
             f5: false,
             close_round: [None, None],
             gave_up: [false, false],
+            calm: self.calm,
         };
         let id = self.atts.len();
         match first {
@@ -686,9 +720,15 @@ impl<'a> Sim<'a> {
         }
         // another live socket of this host must not already own that local endpoint towards the same peer
         self.used_ports.insert((h, dst.is_ipv6(), local.port()));
-        if let Some(prev) = self.tuples.get(&(h, local, dst)).copied() {
-            let p = &self.atts[prev];
-            let retired = p.client_ended && (p.server_ended || !p.may_have_child) && p.retired_at_quiesce;
+        if self.tuples.contains_key(&(h, local, dst)) {
+            // EVERY earlier incarnation of the 4-tuple must be over on both hosts (an attempt that
+            // never succeeded leaves nothing behind once a quiescence point has passed; one that
+            // succeeded is over when both ends have closed)
+            let tol1 = self.tol1;
+            let retired = self.atts.iter().filter(|p| p.host == h && p.local == Some(local) && p.dst == dst).all(|p| {
+                let never_ok = matches!(p.result, Res::Cancelled | Res::Err(_)) && !tol1;
+                p.client_ended && (p.server_ended || !p.may_have_child || never_ok) && p.retired_at_quiesce
+            });
             let leak_suspect = self.atts.iter().any(|p| p.host == h && p.local == Some(local) && p.dst == dst && (p.leak_allow > 0 || ((!self.live_safe || p.crossed || p.f5 || p.disturbed) && p.may_have_child && !p.accepted)));
             att.fresh = retired && !(self.tol1 && leak_suspect);
             self.out.label(if att.fresh { "connect:tuple-reused-after-retire" } else { "connect:tuple-reused-while-burdened" });
@@ -1135,12 +1175,19 @@ impl<'a> Sim<'a> {
             // the connector gives up in pass start + (M+1)*T - 1; the SYN-ACK leaves one pass after
             // this delivery and may be held
             let any_hold = self.sc.plan.by_id.iter().any(|f| matches!(f, Fate::Hold(_))) || self.sc.plan.by_kind.iter().any(|(_, _, f)| matches!(f, Fate::Hold(_)));
-            let hmax = if any_hold { self.sc.plan.max_hold } else { 0 };
+            let hmax = if any_hold && !a.calm { self.sc.plan.max_hold } else { 0 };
             let deadline = (a.start + (self.sc.retx_max + 1) * self.sc.retx_threshold).saturating_sub(3 + hmax);
             if !folded && self.world.round.saturating_sub(1) > deadline {
                 a.late_admit = true;
             }
             a.adm = Adm::Must;
+            if !l.tainted && l.aborted_seen >= self.sc.backlog {
+                // the decisive class: backlog room is certain although the listener has seen at
+                // least `backlog` handshakes that were aborted half-open
+                self.out.label("syn:must-be-admitted-after>=backlog-aborted-handshakes");
+            } else if !l.tainted && l.aborted_seen > 0 {
+                self.out.label("syn:must-be-admitted-after-aborted-handshakes");
+            }
             a.all_rejected = false;
             l.occ_lo += 1;
             l.occ_hi += 1;
@@ -1205,15 +1252,18 @@ impl<'a> Sim<'a> {
     fn resolved(&mut self, att: usize) {
         let a = &self.atts[att];
         let waive3 = self.tol3 && a.crossed;
-        let clean = a.fresh && self.live_safe && !waive3 && !a.disturbed;
+        let clean = a.fresh && (self.live_safe || a.calm) && !waive3 && !a.disturbed;
         let untainted = a.lst.map(|l| !self.lsts[l].tainted).unwrap_or(true) && self.matching_listener(a.dst_host, a.dst).map(|l| !self.lsts[l].tainted).unwrap_or(true);
         let ctx = format!(
-            "attempt {att}: connect({}) from host {} local {:?} started round {} resolved round {}: {:?}; listener during attempt: any={} all={}; backlog model: {:?} (all SYNs certainly rejected: {}, SYN deliveries {}), fresh={} live_safe={}",
-            a.dst, a.host, a.local, a.start, self.world.round, a.result, a.listener_any, a.listener_all, a.adm, a.all_rejected, a.syn_deliveries, a.fresh, self.live_safe
+            "attempt {att}: connect({}) from host {} local {:?} started round {} resolved round {}: {:?}; listener during attempt: any={} all={}; backlog model: {:?} (all SYNs certainly rejected: {}, SYN deliveries {}), fresh={} live_safe={} calm-era={}",
+            a.dst, a.host, a.local, a.start, self.world.round, a.result, a.listener_any, a.listener_all, a.adm, a.all_rejected, a.syn_deliveries, a.fresh, self.live_safe, a.calm
         );
         match a.result {
             Res::Ok => {
                 self.out.label("connect:ok");
+                if a.calm {
+                    self.out.label("connect:ok-in-calm-era");
+                }
                 if !a.listener_any && waive3 {
                     self.out.exclude("F-C13-3");
                 } else if !a.listener_any {
@@ -1317,9 +1367,103 @@ impl<'a> Sim<'a> {
                 }
             }
         }
+        let tol1 = self.tol1;
         for a in self.atts.iter_mut() {
-            if a.client_ended && (a.server_ended || !a.may_have_child) {
+            // a connector that never saw its connect succeed never acknowledged a SYN-ACK: whatever
+            // child a listener made for it stayed half-open, and a half-open child cannot outlive a
+            // quiescence point (it is reset by the answer to its SYN-ACK or runs out of SYN-ACK
+            // retransmissions, each of which would have broken the idle period)
+            let never_ok = matches!(a.result, Res::Cancelled | Res::Err(_)) && !tol1;
+            if a.client_ended && (a.server_ended || !a.may_have_child || never_ok) {
                 a.retired_at_quiesce = true;
+            }
+        }
+        self.recertify_listeners();
+    }
+
+    /// Quiescence point: re-derive every live listener's backlog occupancy from first principles.
+    ///
+    /// While packets are in flight the model only keeps bounds (`occ_lo..=occ_hi`) and marks a
+    /// listener `tainted` as soon as a handshake ends in a way whose effect on the accept queue it
+    /// does not follow (cancelled connect, duplicate SYN of an ended attempt, ...).  At a quiescence
+    /// point (everything delivered, wire idle for Q rounds, every connect resolved) the picture is
+    /// sharp again, because no half-open child exists any more:
+    ///
+    /// * an attempt whose connect never returned `Ok` (cancelled, timed out, refused) never
+    ///   acknowledged a SYN-ACK, so its child -- if it ever had one -- was half-open and is gone:
+    ///   it occupies nothing;
+    /// * an attempt that was accepted occupies nothing; one whose queued child was removed by the
+    ///   close of its listener neither;
+    /// * an attempt that returned `Ok`, whose stream is still open, that was admitted by this very
+    ///   listener on a clean 4-tuple under a loss-free wire and has not been accepted certainly sits
+    ///   in the accept queue: it occupies one slot;
+    /// * every other unaccepted `Ok` attempt (connector gone meanwhile, lossy era, crossed 4-tuple)
+    ///   may or may not still be queued.
+    ///
+    /// With no attempt of the last kind the occupancy is exact and the taint is lifted: the next
+    /// SYN that finds `occupancy < backlog` MUST be admitted (and one that finds the queue full
+    /// must not).  This is the statement "connect succeeds exactly when a listener is reachable and
+    /// has backlog room ... stale entries never swallow later connections" for a listener that has
+    /// seen any number of aborted handshakes.  Guard: netstat must agree that no SYN_RCVD child of
+    /// the listener is left (otherwise the reclaim clauses report it; the occupancy stays bounded).
+    fn recertify_listeners(&mut self) {
+        if self.tol1 || self.failed {
+            return;
+        }
+        for li in 0..self.lsts.len() {
+            if self.lsts[li].obj.is_none() {
+                continue;
+            }
+            let h = self.lsts[li].host;
+            let half_open_rows = self.world.rows(h).iter().filter(|r| r.tcp && r.state == Some("SYN_RCVD") && self.listener_matches(li, r.local)).count();
+            if half_open_rows > 0 {
+                self.out.label("quiesce:half-open-child-visible-at-quiescence");
+                self.lsts[li].tainted = true;
+                continue;
+            }
+            let mut present = 0i64;
+            let mut unsure = 0i64;
+            let mut released = 0u32;
+            for a in self.atts.iter() {
+                if a.dst_host != h || a.accepted || !self.listener_matches(li, a.dst) {
+                    continue;
+                }
+                match a.result {
+                    Res::Cancelled | Res::Err(_) => {
+                        if a.may_have_child || a.lst.is_some() {
+                            released += 1;
+                        }
+                    }
+                    Res::Ok => {
+                        if a.server_ended {
+                            // its queued child went away with the listener that held it
+                        } else if a.lst == Some(li) && a.client_open && a.adm != Adm::No && a.fresh && !a.crossed && !a.disturbed && !a.f5 && (self.live_safe || a.calm) {
+                            present += 1;
+                        } else {
+                            unsure += 1;
+                        }
+                    }
+                    Res::Pending => unsure += 1,
+                }
+            }
+            let l = &mut self.lsts[li];
+            l.occ_lo = present;
+            l.occ_hi = present + unsure;
+            if unsure == 0 {
+                if l.tainted {
+                    self.out.label("quiesce:listener-occupancy-recertified(taint-lifted)");
+                }
+                l.tainted = false;
+                l.aborted_seen = released;
+                if released > 0 {
+                    self.out.label(format!("quiesce:listener-saw-aborted-handshakes={}(backlog={})", released.min(4), (self.sc.backlog).min(4)));
+                    if released >= self.sc.backlog {
+                        self.out.label("quiesce:aborted-handshakes>=backlog");
+                    }
+                }
+            } else {
+                l.tainted = true;
+                self.out.label("quiesce:listener-occupancy-only-bounded");
             }
         }
     }
@@ -1687,6 +1831,8 @@ pub fn run(sc: &Scenario) -> Outcome {
         syn_owner: BTreeMap::new(),
         seen_pkts: 0,
         quiesce_no: 0,
+        quiesce_acts: 0,
+        calm: false,
         nontrivial: false,
         trace: std::env::var("VERIF_TRACE").is_ok(),
         world,
@@ -1777,8 +1923,10 @@ fn plan_strategy(t: u32, m: u32) -> BoxedStrategy<(FatePlan, bool)> {
         prop::collection::vec(0u8..3, 0..40),
         0..=m,
         prop::bool::weighted(0.15),
+        // one host's outgoing packets all vanish from some packet id on (until a calm era starts)
+        prop::option::weighted(0.12, (0usize..2, 0u32..24)),
     )
-        .prop_map(move |(by_id, by_kind, prio, max_drops, drop_rst)| (FatePlan { by_id, by_kind, prio, max_drops, max_hold: 2 * t, blackhole: None }, drop_rst))
+        .prop_map(move |(by_id, by_kind, prio, max_drops, drop_rst, blackhole)| (FatePlan { by_id, by_kind, prio, max_drops, max_hold: 2 * t, blackhole }, drop_rst))
         .boxed();
     prop_oneof![3 => none, 3 => delay, 5 => faulty].boxed()
 }
@@ -1791,25 +1939,240 @@ pub fn strategy() -> BoxedStrategy<Scenario> {
                     .prop_map(|(h, port, bind, v6)| Act::Listen { h, port, bind, v6 }),
                 1 => act_strategy(),
             ];
-            (first, prop::collection::vec(act_strategy(), 3..36), plan_strategy(t, m)).prop_map(move |(first, mut acts, (plan, drop_rst))| {
+            (first, prop::collection::vec(act_strategy(), 3..36), plan_strategy(t, m), prop::option::weighted(0.3, 1u8..=2)).prop_map(move |(first, mut acts, (plan, drop_rst), calm_after)| {
                 acts.insert(0, first);
-                Scenario { retx_threshold: t, retx_max: m, backlog, eph_len: [e0, e1], acts, plan, drop_rst, strict: false }
+                Scenario { retx_threshold: t, retx_max: m, backlog, eph_len: [e0, e1], acts, plan, drop_rst, strict: false, calm_after }
             })
         })
         .boxed()
+}
+
+// ---------------------------------------------------------------- recovery histories
+//
+// "Backlog sizes from 1 upward ... cancelling a pending connect ... packets dropped within the
+// retransmit budget ... many sequential connections": one listener sees k >= backlog handshakes
+// that reach it but never complete (connect cancelled 0..3 rounds after it started, the listener's
+// host black-holed so that its SYN-ACK retransmissions run out, the connector's RST lost so that
+// the half-open child is never told), mixed with ordinary traffic; then the wire quiesces and the
+// faulty era ends; then plain connects arrive.  The generic model (quiescence re-certification +
+// Must/Maybe admission) says what has to happen; nothing here is specific to one history.
+
+/// actions that keep the listener: used as noise inside recovery histories
+fn noise_strategy() -> BoxedStrategy<Act> {
+    let h = 0u8..2;
+    prop_oneof![
+        3 => (h.clone(), 0u8..3).prop_map(|(h, l)| Act::Accept { h, l }),
+        1 => (h.clone(), 0u8..8, 1u8..40).prop_map(|(h, c, n)| Act::Write { h, c, n }),
+        1 => (h.clone(), 0u8..8, 1u8..60).prop_map(|(h, c, n)| Act::Read { h, c, n }),
+        1 => (h.clone(), 0u8..8).prop_map(|(h, c)| Act::Shutdown { h, c }),
+        2 => (h.clone(), 0u8..8).prop_map(|(h, c)| Act::Drop { h, c }),
+        2 => (h, 0u8..4).prop_map(|(h, c)| Act::Cancel { h, c }),
+        2 => (1u8..=3).prop_map(|n| Act::Rounds { n }),
+    ]
+    .boxed()
+}
+
+/// how the wire treats the era in which the handshakes are aborted
+#[derive(Clone, Copy, Debug, PartialEq)]
+enum Era {
+    Quiet,
+    Delay,
+    Drops,
+    /// every packet leaving the listener's host vanishes: SYN-ACK retransmissions run out
+    ListenerBlackholed,
+    /// the first RSTs are lost: a half-open child whose connector is gone is never told
+    RstLost,
+}
+
+/// One handshake of a recovery history: started from the listener's own host (`same`, folded) or
+/// from the other one; cancelled `Some(r)` rounds later or left alone; then `gap` rounds.
+type Handshake = (bool, Option<u8>, u8);
+
+#[allow(clippy::too_many_arguments)]
+fn recovery_acts(lh: u8, port: u8, bind: BindTo, v6: bool, hs: &[Handshake], noise: &[(u8, Act)], wait: u8, after: u32, settle: u8, accepts: u8, tail: &[Act], second: Option<(&[Handshake], u32)>) -> Vec<Act> {
+    let mut acts = vec![Act::Listen { h: lh, port, bind, v6 }];
+    let push_hs = |acts: &mut Vec<Act>, hs: &[Handshake]| {
+        for (same, cancel, gap) in hs.iter().copied() {
+            acts.push(Act::ConnectL { l: 0, same, lo: false });
+            if let Some(r) = cancel {
+                if r > 0 {
+                    acts.push(Act::Rounds { n: r });
+                }
+                acts.push(Act::Cancel { h: if same { lh } else { 1 - lh }, c: 0 });
+            }
+            if gap > 0 {
+                acts.push(Act::Rounds { n: gap });
+            }
+        }
+    };
+    push_hs(&mut acts, hs);
+    for (pos, a) in noise.iter() {
+        let at = 1 + (*pos as usize) % acts.len();
+        acts.insert(at, a.clone());
+    }
+    for _ in 0..wait {
+        acts.push(Act::Rounds { n: 8 });
+    }
+    acts.push(Act::Quiesce);
+    for _ in 0..after {
+        acts.push(Act::ConnectL { l: 0, same: false, lo: false });
+    }
+    acts.push(Act::Rounds { n: settle });
+    for _ in 0..accepts {
+        acts.push(Act::Accept { h: lh, l: 0 });
+    }
+    acts.extend(tail.iter().cloned());
+    if let Some((hs2, after2)) = second {
+        push_hs(&mut acts, hs2);
+        acts.push(Act::Quiesce);
+        for _ in 0..after2 {
+            acts.push(Act::ConnectL { l: 0, same: false, lo: false });
+        }
+        acts.push(Act::Rounds { n: settle });
+    }
+    acts
+}
+
+fn era_plan(era: Era, t: u32, lh: u8, from: u32, delay: &FatePlan, faulty: &(FatePlan, bool)) -> (FatePlan, bool, Option<u8>) {
+    match era {
+        Era::Quiet => (FatePlan::default(), false, None),
+        Era::Delay => (delay.clone(), false, None),
+        Era::Drops => (faulty.0.clone(), faulty.1, Some(1)),
+        Era::ListenerBlackholed => (FatePlan { max_hold: 2 * t, blackhole: Some((lh as usize, from)), ..FatePlan::default() }, false, Some(1)),
+        Era::RstLost => (
+            FatePlan { by_kind: vec![(Kind::Rst, 0, Fate::Drop), (Kind::Rst, 1, Fate::Drop), (Kind::Rst, 2, Fate::Drop)], max_drops: 3, max_hold: 2 * t, ..FatePlan::default() },
+            true,
+            Some(1),
+        ),
+    }
+}
+
+pub fn recovery_strategy() -> BoxedStrategy<Scenario> {
+    let era = prop_oneof![3 => Just(Era::Quiet), 3 => Just(Era::Delay), 2 => Just(Era::Drops), 2 => Just(Era::ListenerBlackholed), 2 => Just(Era::RstLost)];
+    let eph = prop_oneof![1 => Just(1u16), 1 => Just(2u16), 2 => Just(5u16), 4 => Just(8u16)];
+    (2u32..=3, 1u32..=2, prop_oneof![3 => Just(1u32), 2 => Just(2u32), 1 => Just(3u32)], 0u32..=2, eph, era)
+        .prop_flat_map(|(t, m, backlog, extra, eph, era)| {
+            let k = (backlog + extra) as usize;
+            let hl = h_live(t, m);
+            let handshake = (prop::bool::weighted(0.1), prop::option::weighted(0.85, 0u8..4), 0u8..5);
+            let lst = (0u8..2, 0u8..2, prop_oneof![Just(BindTo::Any), Just(BindTo::Host)], prop::bool::weighted(0.25));
+            let delay = (prop::collection::vec(fate_strategy(hl.max(1), false), 0..30), prop::collection::vec(0u8..3, 0..30))
+                .prop_map(move |(by_id, prio)| if hl >= 1 { FatePlan { by_id, by_kind: Vec::new(), prio, max_drops: 0, max_hold: hl, blackhole: None } } else { FatePlan::default() });
+            let faulty = (prop::collection::vec(fate_strategy(2 * t, true), 0..30), prop::collection::vec(0u8..3, 0..30), 1..=m, prop::bool::weighted(0.3))
+                .prop_map(move |(by_id, prio, max_drops, drop_rst)| (FatePlan { by_id, by_kind: Vec::new(), prio, max_drops, max_hold: 2 * t, blackhole: None }, drop_rst));
+            (
+                lst,
+                prop::collection::vec(handshake.clone(), k..=k),
+                prop::collection::vec((0u8..32, noise_strategy()), 0..3),
+                (0u8..4, 1u32..=backlog, 2u8..=6, 0u8..=3, 0u32..8),
+                prop::collection::vec(act_strategy(), 0..6),
+                prop::option::weighted(0.3, (prop::collection::vec(handshake, 1..=k), 1u32..=backlog)),
+                delay,
+                faulty,
+            )
+                .prop_map(move |((lh, port, bind, v6), hs, noise, (wait, after, settle, accepts, from), tail, second, delay, faulty)| {
+                    let (plan, drop_rst, calm_after) = era_plan(era, t, lh, from, &delay, &faulty);
+                    let wait = if matches!(era, Era::Quiet | Era::Delay) { wait.min(1) } else { wait };
+                    let acts = recovery_acts(lh, port, bind, v6, &hs, &noise, wait, after, settle, accepts, &tail, second.as_ref().map(|(h2, a2)| (h2.as_slice(), *a2)));
+                    Scenario { retx_threshold: t, retx_max: m, backlog, eph_len: [eph, eph], acts, plan, drop_rst, strict: false, calm_after }
+                })
+        })
+        .boxed()
+}
+
+/// Bounded-exhaustive family of recovery histories: (retx_threshold, retx_max) in {(2,1),(3,2)} x
+/// backlog 1..=3 x k = backlog or backlog+1 aborted handshakes x how they are aborted (cancelled
+/// 0/1/2/3 rounds after the connect started; left to time out against a black-holed listener host;
+/// cancelled after one round with the connector's RSTs lost) x one after the other / all at once x
+/// listener on the wildcard / the host address x IPv4 / IPv6.  After the quiescence point exactly
+/// `backlog` plain connects arrive together (all must be admitted), are accepted, and one more follows.
+fn recovery_family() -> Vec<Scenario> {
+    let mut v = Vec::new();
+    for (t, m) in [(2u32, 1u32), (3, 2)] {
+        for backlog in 1u32..=3 {
+            for extra in 0u32..=1 {
+                for mode in 0u8..6 {
+                    for concurrent in [false, true] {
+                        for bind in [BindTo::Any, BindTo::Host] {
+                            for v6 in [false, true] {
+                                let k = (backlog + extra) as usize;
+                                let budget = ((m + 2) * t + 2) as u8;
+                                let (era, cancel): (Era, Option<u8>) = match mode {
+                                    0..=3 => (Era::Quiet, Some(mode)),
+                                    4 => (Era::ListenerBlackholed, None),
+                                    _ => (Era::RstLost, Some(1)),
+                                };
+                                let mut acts = vec![Act::Listen { h: 0, port: 0, bind, v6 }];
+                                let rounds = |acts: &mut Vec<Act>, mut n: u8| {
+                                    while n > 0 {
+                                        acts.push(Act::Rounds { n: n.min(8) });
+                                        n -= n.min(8);
+                                    }
+                                };
+                                if concurrent {
+                                    for _ in 0..k {
+                                        acts.push(Act::ConnectL { l: 0, same: false, lo: false });
+                                    }
+                                    if let Some(r) = cancel {
+                                        rounds(&mut acts, r);
+                                        for _ in 0..k {
+                                            acts.push(Act::Cancel { h: 1, c: 0 });
+                                        }
+                                    }
+                                    rounds(&mut acts, if era == Era::Quiet { 2 } else { budget });
+                                } else {
+                                    for _ in 0..k {
+                                        acts.push(Act::ConnectL { l: 0, same: false, lo: false });
+                                        if let Some(r) = cancel {
+                                            rounds(&mut acts, r);
+                                            acts.push(Act::Cancel { h: 1, c: 0 });
+                                        }
+                                        rounds(&mut acts, if era == Era::Quiet { 2 } else { budget });
+                                    }
+                                }
+                                acts.push(Act::Quiesce);
+                                for _ in 0..backlog {
+                                    acts.push(Act::ConnectL { l: 0, same: false, lo: false });
+                                }
+                                acts.push(Act::Rounds { n: 6 });
+                                for _ in 0..backlog {
+                                    acts.push(Act::Accept { h: 0, l: 0 });
+                                }
+                                acts.push(Act::ConnectL { l: 0, same: false, lo: false });
+                                acts.push(Act::Rounds { n: 6 });
+                                acts.push(Act::Accept { h: 0, l: 0 });
+                                let (plan, drop_rst, calm_after) = era_plan(era, t, 0, 0, &FatePlan::default(), &(FatePlan::default(), false));
+                                v.push(Scenario { retx_threshold: t, retx_max: m, backlog, eph_len: [8, 8], acts, plan, drop_rst, strict: false, calm_after });
+                            }
+                        }
+                    }
+                }
+            }
+        }
+    }
+    v
 }
 
 fn check(tier: Tier, seed: u64) -> i32 {
     let ctx = Ctx::new("C13", tier, seed, "exploration");
     ctx.replay_corpus(&replay);
     ctx.random("lifecycle", tier.pick(40_000, 600_000), &|| strategy(), &run);
+    ctx.random("recovery", tier.pick(12_000, 150_000), &|| recovery_strategy(), &run);
+    ctx.exhaustive(
+        "recovery-family",
+        "(retx_threshold,retx_max) in {(2,1),(3,2)} x backlog 1..3 x k = backlog | backlog+1 aborted handshakes x abort mode (cancel 0/1/2/3 rounds after the connect started | listener host black-holed until SYN-ACK retransmissions run out | cancel after 1 round with the connector's RSTs lost) x sequential | concurrent x listener on wildcard | host address x IPv4 | IPv6; then quiesce (faulty eras end there), `backlog` plain connects at once, accept them, one more connect + accept",
+        Box::new(recovery_family().into_iter()),
+        &run,
+    );
     ctx.finish(
-        "random scenarios: KernelConfig (retx_threshold 2..4, retx_max 1..4, backlog 1/2/3/1024) x ephemeral range of 1/2/3/5 ports per host (hook H3) x 4..37 actions on two dual-stack hosts (listen on wildcard/host/loopback address, drop listener, connect to a live listener cross-host / through the own address / through loopback, connect to an arbitrary address+port, cancel a pending connect, poll accept once, try_write, try_read, shutdown, drop, 1..3 wire rounds, quiesce) x fate plan (none 27% / holds within the handshake-safe bound + reordering 27% / holds up to 2*threshold, <= retx_max drops, RST drops only in the drop_rst sub-class 45%); then quiesce, drain every listener and drop everything, quiesce, H2 table counts must be (0,0,0) on both hosts, then re-bind every used port and reconnect over up to 6 used 4-tuples (H3 pins the client port). The netstat state of the peer is read at every cancel/shutdown/drop and counted as a class. Non-trivial = a shutdown/drop met a peer whose state was not ESTABLISHED (SYN_RCVD, SYN_SENT, FIN_WAIT1/2, CLOSE_WAIT, LAST_ACK, CLOSING), or a connect was cancelled while the server already had a TCB for it, or a listener was dropped under a half-open child; distinct by scenario hash.",
+        "random scenarios: KernelConfig (retx_threshold 2..4, retx_max 1..4, backlog 1/2/3/1024) x ephemeral range of 1/2/3/5 ports per host (hook H3) x 4..37 actions on two dual-stack hosts (listen on wildcard/host/loopback address, drop listener, connect to a live listener cross-host / through the own address / through loopback, connect to an arbitrary address+port, cancel a pending connect, poll accept once, try_write, try_read, shutdown, drop, 1..3 wire rounds, quiesce) x fate plan (none 27% / holds within the handshake-safe bound + reordering 27% / holds up to 2*threshold, <= retx_max drops, RST drops only in the drop_rst sub-class 45%); then quiesce, drain every listener and drop everything, quiesce, H2 table counts must be (0,0,0) on both hosts, then re-bind every used port and reconnect over up to 6 used 4-tuples (H3 pins the client port). In 12% of the faulty plans one host is black-holed from some packet id on; in 30% of all scenarios the plan stops at the 1st or 2nd Quiesce action (`calm_after`: the calm era). At EVERY quiescence point each live listener's backlog occupancy is re-derived from first principles (attempts that never returned Ok occupy nothing, accepted ones nothing, open unaccepted Ok ones one slot each) and, when nothing is uncertain, the taint of earlier aborted handshakes is lifted, so that later connects are judged Must/full again; 4-tuples of attempts that never succeeded count as unburdened after a quiescence point. Sub `recovery` (random): one listener (backlog 1/2/3, wildcard or host address, IPv4/IPv6, retx_threshold 2..3, retx_max 1..2, ephemeral range 1/2/5/8), k = backlog..backlog+2 handshakes each cancelled 0..3 rounds after its start or left alone, from the other host (90%) or the listener's own (folded), 0..4 rounds apart, 0..2 noise actions (accept/write/read/shutdown/drop/cancel/rounds), under an era plan (quiet 25% / live-safe holds 25% / drops+holds 17% / listener host black-holed 17% / the first three RSTs lost 17%; the last three end at the quiescence point), up to 3x8 further rounds, Quiesce, then 1..backlog plain connects at once, 2..6 rounds, 0..3 accepts, 0..5 random actions, and in 30% a second batch of aborted handshakes + Quiesce + connects. Sub `recovery-family` (exhaustive, 576 histories): see its space description. The netstat state of the peer is read at every cancel/shutdown/drop and counted as a class. Non-trivial = a shutdown/drop met a peer whose state was not ESTABLISHED (SYN_RCVD, SYN_SENT, FIN_WAIT1/2, CLOSE_WAIT, LAST_ACK, CLOSING), or a connect was cancelled while the server already had a TCB for it, or a listener was dropped under a half-open child; distinct by scenario hash.",
         &[
             "the liveness half of the connect clause (Refused / Ok / TimedOut exactly as the listener+backlog model says) is only judged on runs without loss whose holds stay within ((retx_max+1)*retx_threshold-3)/2 rounds and for attempts whose 4-tuple is not burdened by an earlier incarnation; safety clauses are judged always",
             "quiescence = every packet delivered and no emission for Q = retx_threshold*(retx_max+2) consecutive rounds (after which no retransmit counter is running)",
             "loopback / own-address connections are folded inside Kernel::egress: no fates apply to them and their SYN retransmissions are invisible, so a folded SYN that meets a full backlog is only bounded, not predicted",
             "RST segments are not retransmitted; the plan drops one only in the drop_rst sub-class",
+            "a half-open (SYN_RCVD) child cannot outlive a quiescence point: it is established by the handshake ACK, reset by the answer to its SYN-ACK, or runs out of SYN-ACK retransmissions, and each retransmission breaks the idle period (Q exceeds the whole retransmit budget); hence a connector whose connect never returned Ok (cancelled, timed out) holds no backlog slot and burdens no 4-tuple after a quiescence point. The re-certification is skipped for a listener for which netstat still shows a SYN_RCVD child",
+            "calm era (`calm_after`): after the chosen quiescence point every packet is delivered in the round it is emitted; connects started there are judged by the liveness half of the connect clause even if the plan before that point was lossy, provided their 4-tuple is unburdened and the listener's occupancy was re-certified exactly at a quiescence point (otherwise only bounds apply, as before)",
             "Listen results are not judged here (C17 does); a failed bind just leaves the model without that listener",
             "findings F-C13-1..5 are tolerated only while known_findings.json lists them with status \"known\", and then only on the objects the model attributes to them (counted under excluded_by_known_finding); with status \"fixed\" the full clause is asserted again; their committed probe scenarios run with `strict` and assert the full clause; C13_STRICT=1 switches every tolerance off for a whole run (used to validate fixes: with the five proposed patches applied 1.2 million strict cases pass)",
         ],
@@ -1831,18 +2194,21 @@ fn replay(sub: &str, v: &Value) -> Result<Outcome, String> {
 
 // ---------------------------------------------------------------- coverage-guided tier
 
-/// Clamp a byte-decoded scenario (engine::bytesde) into exactly the domain of `strategy()` (sub
-/// `lifecycle`).  The generator's plan class (none / delay within the handshake-safe bound /
-/// faulty), which has no field of its own, is taken from the decoded `plan.max_hold`, a field all
-/// three classes derive from (threshold, budget); `strict` is forced to false, `blackhole` to None.
+/// Clamp a byte-decoded scenario (engine::bytesde) into the union of the domains of `strategy()`
+/// (sub `lifecycle`) and `recovery_strategy()` (sub `recovery`).  The generator's plan class (none /
+/// delay within the handshake-safe bound / faulty), which has no field of its own, is taken from
+/// the decoded `plan.max_hold`, a field all three classes derive from (threshold, budget); `strict`
+/// is forced to false; a black-hole (host 0..1, from packet id 0..23) survives only in the faulty
+/// class; `calm_after` is None or 1..=2; ephemeral ranges 1/2/3/5/8 ports; `Rounds` 1..=8.
 pub fn fuzz_sanitize(sc: &mut Scenario) -> bool {
     sc.retx_threshold = 2 + sc.retx_threshold % 3;
     sc.retx_max = 1 + sc.retx_max % 4;
     sc.backlog = [1u32, 2, 3, 1024][(sc.backlog % 4) as usize];
     for e in sc.eph_len.iter_mut() {
-        *e = [1u16, 2, 3, 5][(*e % 4) as usize];
+        *e = [1u16, 2, 3, 5, 8][(*e % 5) as usize];
     }
     sc.strict = false;
+    sc.calm_after = sc.calm_after.map(|n| 1 + n % 2);
     let (t, m) = (sc.retx_threshold, sc.retx_max);
     // acts: one first action + 3..36 more; every action in act_strategy's ranges (the weighted
     // `first` alternative, a Listen, is inside act_strategy's domain too)
@@ -1886,7 +2252,7 @@ pub fn fuzz_sanitize(sc: &mut Scenario) -> bool {
                 *h %= 2;
                 *c %= 8;
             }
-            Act::Rounds { n } => *n = 1 + *n % 3,
+            Act::Rounds { n } => *n = 1 + *n % 8,
             Act::Quiesce => {}
         }
     }
@@ -1929,9 +2295,9 @@ pub fn fuzz_sanitize(sc: &mut Scenario) -> bool {
         *p %= 3;
     }
     sc.plan.max_hold = mh;
-    sc.plan.blackhole = None;
+    sc.plan.blackhole = if drops { sc.plan.blackhole.map(|(h, from)| (h % 2, from % 24)) } else { None };
     if drops {
-        sc.plan.max_drops %= m + 1;
+        sc.plan.max_drops %= (m + 1).max(4);
     } else {
         sc.plan.max_drops = 0;
         sc.drop_rst = false;
